@@ -536,6 +536,10 @@ func (c *Client) monitor(ctx context.Context) {
 							// otherwise, try a republish for the subscriptions that were transferred
 							// and recreate the rest.
 							for i := range res.Results {
+								// there cannot be more results than subscriptions
+								if i >= len(subIDs) || res.Results[i] == nil {
+									break
+								}
 								transferResult := res.Results[i]
 								switch transferResult.StatusCode {
 								case ua.StatusBadSubscriptionIDInvalid:
